@@ -46,6 +46,7 @@ impl<'a> MslV<'a> {
             consts: Vec::new(),
             hlsl_literals,
             fmod_is_builtin,
+            in_fmod: std::cell::Cell::new(false),
         };
         // declared type names first (a member may name another struct)
         for d in module {
